@@ -350,7 +350,21 @@ def st_annotation(max_depth: int = 3, allow_forward: bool = True, allow_rejected
             inner.filter(forward_ok_for_newtype).map(lambda a: {"k": "newtype", "of": a}),
         ]
         if allow_rejected:
+            # optional node types inside tuples, with None at every position of the union and in both
+            # spellings (rejected whatever the order of the members)
+            nodes2 = st.lists(nodes, min_size=1, max_size=2)
+
+            def opt_union(t: tuple) -> dict:
+                ms, pos, pipe = t
+                ms = list(ms)
+                ms.insert(pos % (len(ms) + 1), {"k": "none"})
+                return {"k": "union", "of": ms, "pipe": pipe}
+
+            ounion = st.tuples(nodes2, st.integers(0, 2), st.booleans()).map(opt_union)
             opts += [
+                ounion.map(lambda u: {"k": "tuple_var", "of": u}),
+                st.tuples(nodes, ounion, st.booleans()).map(
+                    lambda t: {"k": "tuple_fix", "of": [t[0], t[1]] if t[2] else [t[1], t[0]]}),
                 inner.map(lambda a: {"k": "list", "of": a}),
                 st.tuples(scalars, inner).map(lambda t: {"k": "dict", "of": [t[0], t[1]]}),
                 inner.map(lambda a: {"k": "set", "of": a}),
